@@ -125,6 +125,17 @@ def check_response(ctx, r, segs, what, rc, fault=False, method='GET'):
             if cl is None or int(cl) != len(r.body):
                 ctx.mismatch('static-content-length', '%s: Content-Length %r for %d bytes' % (what, cl, len(r.body)), rc)
                 return None
+        ctype = (r.header('Content-Type') or '').split(';')[0].strip()
+        import mimetypes
+        guess = mimetypes.guess_type(parts[-1])[0] if parts else None
+        if guess is None and method != 'HEAD':
+            # unknown extension: sniffed as text or binary (default types)
+            sample = r.body[:1024]
+            binary = bool(sample) and any(b < 32 and b not in (7, 8, 9, 10, 12, 13, 27) for b in sample)
+            guess = 'application/octet-stream' if binary else 'text/plain'
+        if guess is not None and ctype != guess and not fault:
+            ctx.mismatch('static-content-type', '%s: Content-Type %r, expected the guessed type %r' % (what, ctype, guess), rc)
+            return None
         if not r.header('Last-Modified') or not (r.header('Content-Type') or '').strip():
             ctx.mismatch('static-headers', '%s: Last-Modified %r Content-Type %r' % (what, r.header('Last-Modified'), r.header('Content-Type')), rc)
             return None
